@@ -503,8 +503,8 @@ theorem C03_HS_U_order_step (E : UHS.Env U π) (rank : UHS.UNT U → Nat) (Good 
     (n : Nat) (s s' : UHS.St U π) (nt : UHS.UNT U) (p r : Option Prog) (hb : Base E s)
     (hpre : OPre E rank (.query nt p) s) (h : UHS.query E n s nt p = some (s', r)) :
     Below E rank (rank nt) s' ∧ NTInv E s' nt ∧ ∀ q, r = some q → ∀ k, p = some k → UHS.LE E nt k q := by
-  obtain ⟨a, b, _, d⟩ := big_order H (big_of_query E h) hb trivial trivial hpre
-  exact ⟨a, b, d⟩
+  obtain ⟨a, b, d, _⟩ := big_order H (big_of_query E h) hb trivial trivial hpre
+  exact ⟨a, b.1, d⟩
 
 /-- **BEST-FIRST ORDER of the unambiguous-grammar machine** on ACYCLIC unambiguous grammars with SEVERAL
     START SYMBOLS and start weights (every fuel, every number of steps): the keys
